@@ -18,6 +18,8 @@ BUILD_ROOT = os.path.join(VERIF, ".build")
 OUT_ROOT = os.environ.get("SPECTRA_VERIF_OUT", VERIF)   # evidence/ and replays/ (selftest / seeded runs redirect them)
 JOBS = int(os.environ.get("VERIF_JOBS", "16"))
 CASE_TIMEOUT = int(os.environ.get("VERIF_CASE_TIMEOUT", "180"))   # wall-clock watchdog, inconclusive only
+CASE_CPU = int(os.environ.get("VERIF_CASE_CPU", "600"))           # CPU-seconds watchdog inside the driver (exit code 86)
+RC_CPU = 86
 
 sys.path.insert(0, os.path.join(VERIF, "tools"))
 from registry import PROPS, FLAVOURS  # noqa: E402
@@ -117,8 +119,12 @@ def build(job, pool=None):
 
 
 # ------------------------------------------------------------------------------------ run
-def env_for(flavour, logdir, tag):
+def env_for(flavour, logdir, tag, cpu=None):
     e = dict(os.environ)
+    if cpu:
+        e["VF_CASE_CPU"] = str(cpu)
+    else:
+        e.pop("VF_CASE_CPU", None)
     e["ASAN_OPTIONS"] = "abort_on_error=1:detect_leaks=1:allocator_may_return_null=0:detect_stack_use_after_return=0:symbolize=1:quarantine_size_mb=16:malloc_context_size=8"
     e["UBSAN_OPTIONS"] = "print_stacktrace=1:halt_on_error=1:abort_on_error=1"
     e["LSAN_OPTIONS"] = "exitcode=23"
@@ -200,6 +206,7 @@ class JobResult:
 def parse_log(path, res, job, seen_done):
     """Parse one worker log. Returns (open_idx or None, done flag)."""
     open_idx, done, tag = None, False, None
+    res.open_where = None
     if not os.path.exists(path):
         return None, False, None
     with open(path, "r", errors="replace") as fh:
@@ -210,6 +217,10 @@ def parse_log(path, res, job, seen_done):
             if t == "B":
                 open_idx = int(line[2:])
                 tag = None
+                res.open_where = None
+            elif t == "W":
+                sp = line.find(" ", 2)
+                res.open_where = line[sp + 1:].strip()
             elif t == "T":
                 sp = line.find(" ", 2)
                 tag = line[sp + 1:].strip()
@@ -248,6 +259,8 @@ def run_job(job, exe, tier, seed, workdir):
                                env=env_for(flavour, workdir, "n")).stdout.strip() or "0")
     res.total = total
     lock = threading.Lock()
+    cpu_limit = job.get("cpu_limit", CASE_CPU)
+    hung = []   # (idx, tag, where) of cases stopped by the CPU watchdog
 
     def worker(w):
         start = 0
@@ -259,7 +272,7 @@ def run_job(job, exe, tier, seed, workdir):
             cmd = [exe, "--tier", tier, "--seed", str(seed), "--worker", str(w), "--nworkers", str(nworkers),
                    "--start", str(start), "--log", lp]
             with open(ep, "wb") as ef:
-                p = subprocess.Popen(cmd, stdout=ef, stderr=ef, env=env_for(flavour, workdir, "%s.w%d" % (job["name"], w)),
+                p = subprocess.Popen(cmd, stdout=ef, stderr=ef, env=env_for(flavour, workdir, "%s.w%d" % (job["name"], w), cpu_limit),
                                      cwd=workdir)
                 last_size, last_change, timed_out = -1, time.time(), False
                 while True:
@@ -280,6 +293,7 @@ def run_job(job, exe, tier, seed, workdir):
                             break
             with lock:
                 open_idx, done, open_tag = parse_log(lp, res, job, None)
+                where = res.open_where
             rc = p.returncode
             with open(ep, "r", errors="replace") as ef:
                 err = ef.read()
@@ -299,6 +313,8 @@ def run_job(job, exe, tier, seed, workdir):
             with lock:
                 if timed_out:
                     res.inconclusive.append(dict(idx=open_idx, reason="watchdog: no progress for %ds" % job.get("case_timeout", CASE_TIMEOUT), job=job["name"]))
+                elif rc == RC_CPU:
+                    hung.append((open_idx, open_tag, where))
                 else:
                     ck = classify_crash(err, rc)
                     if open_tag:
@@ -313,6 +329,26 @@ def run_job(job, exe, tier, seed, workdir):
 
     with ThreadPoolExecutor(max_workers=nworkers) as pool:
         list(pool.map(worker, range(nworkers)))
+    # cases stopped by the CPU watchdog: re-run each one alone (the machine is quiet now); a case that again burns the whole CPU budget without
+    # finishing did not terminate. That is a violation where termination is the property (job["hang_is_violation"]), inconclusive elsewhere.
+    for (idx, tag, where) in hung[:40]:
+        again = False
+        if job.get("hang_is_violation"):
+            lp = os.path.join(workdir, "%s.hang%d.log" % (job["name"], idx))
+            with open(os.devnull, "wb") as dn:
+                p = subprocess.run([exe, "--tier", tier, "--seed", str(seed), "--only", str(idx), "--log", lp], stdout=dn, stderr=dn,
+                                   env=env_for(flavour, workdir, "hang", cpu_limit), cwd=workdir)
+            again = p.returncode == RC_CPU
+        if again:
+            key = (tag + "/" if tag else "") + "no-termination" + ("/" + where if where else "")
+            res.violations.append(dict(key=key, idx=idx, job=job["name"],
+                                       details={"what": "the case used %d CPU-seconds without returning, twice (second time run alone)" % cpu_limit, "where": where or ""}))
+        else:
+            res.inconclusive.append(dict(idx=idx, reason="cpu watchdog: %ds of CPU in one case%s" % (cpu_limit, "" if job.get("hang_is_violation") else " (not judged by this check; see C13)"), job=job["name"]))
+    for (idx, tag, where) in hung[40:]:
+        res.inconclusive.append(dict(idx=idx, reason="cpu watchdog: %ds of CPU in one case (not re-run: more than 40 such cases)" % cpu_limit, job=job["name"]))
+    if len(hung) > 40 and job.get("hang_is_violation"):
+        res.violations.append(dict(key="no-termination/many", idx=hung[40][0], job=job["name"], details={"cases_stopped_by_cpu_watchdog": len(hung)}))
     # ThreadSanitizer reports (logged, not fatal): de-duplicate by stack pair without line numbers
     if flavour == "tsan":
         seen = {}
@@ -516,10 +552,16 @@ def run_single(job, exe, tier, seed, idx, workdir):
     ep = os.path.join(workdir, "replay.err")
     with open(ep, "wb") as ef:
         p = subprocess.run([exe, "--tier", tier, "--seed", str(seed), "--only", str(idx), "--log", lp], stdout=ef, stderr=ef,
-                           env=env_for(job["flavour"], workdir, "replay"), cwd=workdir)
+                           env=env_for(job["flavour"], workdir, "replay", job.get("cpu_limit", CASE_CPU)), cwd=workdir)
     open_idx, done, open_tag = parse_log(lp, res, job, None)
     err = open(ep, errors="replace").read()
-    if p.returncode != 0:
+    if p.returncode == RC_CPU:
+        if job.get("hang_is_violation"):
+            res.violations.append(dict(key=(open_tag + "/" if open_tag else "") + "no-termination" + ("/" + res.open_where if res.open_where else ""), idx=idx,
+                                       details={"what": "the case used %d CPU-seconds without returning" % job.get("cpu_limit", CASE_CPU)}, job=job["name"]))
+        else:
+            res.inconclusive.append(dict(idx=idx, reason="cpu watchdog", job=job["name"]))
+    elif p.returncode != 0:
         res.violations.append(dict(key=(open_tag + "/" if open_tag else "") + classify_crash(err, p.returncode), idx=idx, details={"stderr_tail": err[-3000:]}, job=job["name"]))
     res.total = 1
     return res
